@@ -317,6 +317,21 @@ def _run_naive(case, ctx):
                 ctx.check("naive.insample", _close([ins.values[p]], [exp], 1e-9, 1e-9), "naive:in-sample:%s:differs" % strategy,
                           "in-sample forecast differs from the one-step forecast from the preceding cutoff", position=p,
                           got=float(ins.values[p]), expected=exp, strategy=strategy, sp=sp, window=w_eff)
+    # in-sample requests leave the forecaster where it was: a horizon mixing in-sample and out-of-sample steps, and the out-of-sample forecast
+    # asked again afterwards, give the values computed above
+    if case["nan"] == "none" and n >= 4 and not drift_nan:
+        mixed = [-1, 0] + steps[:3]
+        ok, pm = ctx.call("naive:mixed-horizon-exception", f.predict, mixed)
+        if ok:
+            ctx.check("naive.oos", list(pm.index) == [T_label + h for h in mixed], "naive:mixed-horizon:forecast-index", "forecast index of a mixed in-sample / out-of-sample horizon is not cutoff + fh",
+                      got=list(pm.index), steps=mixed)
+            ctx.check("naive.oos", _close(pm.values[2:], ref[:len(mixed) - 2], 1e-9, 1e-9), "naive:mixed-horizon:out-of-sample-part-differs",
+                      "the out-of-sample part of a mixed horizon differs from the out-of-sample forecast", got=pm.values.tolist(), expected=ref[:3])
+        ok, pa = ctx.call("naive:predict-exception", f.predict, steps)
+        if ok:
+            ctx.check("naive.oos", list(pa.index) == list(pred.index) and _close(pa.values, pred.values, 1e-12, 1e-12) and int(f.cutoff) == T_label,
+                      "naive:forecast-changes-after-an-in-sample-request", "the out-of-sample forecast (or the cutoff) is different after in-sample forecasts were requested",
+                      cutoff=f.cutoff, expected_cutoff=T_label, got=pa.values.tolist()[:4], expected=pred.values.tolist()[:4])
     # the same definition after an update: the window is the last window of everything observed, whatever update_params is
     then = (case["dseed"] // 2) % 3
     if then and case["nan"] == "none":
